@@ -595,6 +595,12 @@ pub fn gen_inv(rng: &mut Rng, tree: &Tree, docs: &mut Docs, focus: Focus, main_s
 /// a few environment variables a front-end might be tempted to look at
 fn gen_env(rng: &mut Rng) -> Vec<(String, String)> {
     let mut v = Vec::new();
+    if rng.chance(0.12) {
+        // every environment variable that is not set reads as "1" (interposer): whatever variable
+        // a front-end might consult, the formatted text, the files and the exit status must not
+        // depend on it
+        v.push(("VSIM_ENVJUNK".to_string(), "1".to_string()));
+    }
     if rng.chance(0.3) {
         let names = [
             "COLUMNS", "LINES", "TERM", "NO_COLOR", "CLICOLOR_FORCE", "LANG", "LC_ALL", "TYPSTYLE_COLUMN", "TYPSTYLE_TAB_WIDTH",
